@@ -336,7 +336,6 @@ HELPER_JOBS = [
     S("h_helpers", dict(ob=4, big=1), ["create_result.variance"]),
     S("h_helpers", dict(ob=0, m=4), ["weighted.independent_of_the_order"], timeout_ms=300000),
     S("h_helpers", dict(ob=1, m=4), ["equal.error_is_the_standard_error"], tiers=T),
-    S("h_helpers", dict(ob=2, m=4), ["chi.documented_formula"], tiers=T, timeout_ms=300000),
     S("h_helpers", dict(ob=3, m=3), ["distributions.same_rule"], tiers=T),
 ]
 PLAN["C13"] = dict(
